@@ -267,6 +267,8 @@ impl Property for C09 {
         o.attr_alpha = Alpha::Tiny;
         o.scoping = Scoping::Free;
         o.max_depth = 8;
+        // layered re-declarations and aliases make shadowing frequent
+        o.redundant_decls = src.bool();
         let doc = match src.weighted(&[3, 2, 4]) {
             0 => gen::gen_document(src, &o),
             1 => gen::gen_fragment(src, &o),
